@@ -14,7 +14,7 @@ THEOREMS_CACHE = ["single_flight", "at_most_one_success_per_key", "waiters_get_o
 THEOREMS_COMPUTE = ["compute_patches_confluent", "compute_patches_confluent_compare", "patch_compare_total_preorder",
                     "patch_compare_not_transitive_refuted", "compute_patches_tie_schedule_dependent_refuted"]
 THEOREMS_RACE = ["walk_context_race_free", "shared_clients_lock_protected", "client_unprotected_slots_refuted",
-                 "maven_registry_append_race_refuted"]
+                 "registries_never_appended_in_place"]
 
 META = {
     "technique": "Coq proofs (confluence of a nondeterministic task pool; inductive invariants of an LTS over arbitrarily "
